@@ -62,9 +62,9 @@ CLAIMED = {
     },
     "C11": {
         "level": "model_checking",
-        "text": "(a) 20 public wrappers: with incompatible dimensions the call does not return and touches no operand word (dimensions symbolic, operand storage dangling) -- unbounded; (b) the Strassen-Winograd orchestration meets every callee's shape pre-condition, windows lie inside their parents, headers are balanced, for all sizes and cutoffs -- unbounded (loop invariant); (c) CBMC's built-in bounds/pointer/shift/overflow obligations on the kernel contract groups -- bounded shapes.",
+        "text": "(a) 20 public wrappers: with incompatible dimensions the call does not return and touches no operand word (dimensions symbolic, operand storage dangling) -- unbounded; (b) the orchestration layers (Strassen-Winograd, the four TRSM recursions, triangular inversion, PLUQ solve, kernel, PLUQ-based echelon form, inversion front end) meet every callee's shape / index-range pre-condition, windows lie inside their parents, no int overflow in the size arithmetic, every temporary is released, for all sizes, ranks and cutoffs -- unbounded (loop invariants); (c) CBMC's built-in bounds/pointer/shift/overflow obligations on the kernel contract groups -- bounded shapes.",
         "design_ref": "DESIGN.md 3/C11",
-        "note": "vector alignment traps are not modelled by CBMC; dimensions <= 2^29 assumed in layer S.",
+        "note": "vector alignment traps are not modelled by CBMC (16-byte alignment is asserted in front of every _mm_xor_si128 statement of the combine kernels instead); dimensions <= 2^29 assumed in layer S.",
         "technique": _T + "dangling-operand wrapper harnesses; modular shape contracts with --replace-call-with-contract",
     },
     "C01": {
@@ -74,18 +74,18 @@ CLAIMED = {
         "note": "the algebra of the Bodrato sequence above the split, the M4RM 8-table main loop (thorough, scalar configuration only), mzd_mul_mp and DJB are not decided.",
         "technique": _TB + "; modular shape contracts for the recursion",
     },
-    "C02": {"level": "model_checking", "text": "mzd_echelonize_naive, mzd_top_echelonize_m4ri and mzd_echelonize_m4ri on 3x4/3x5/2x66 fully symbolic matrices: returned rank, exact RREF (full) or REF with the same row space, against a spec-side textbook elimination.",
-            "design_ref": "DESIGN.md 3/C02", "note": "toy shapes only; PLUQ-based and hybrid routes not decided in the quick tier.", "technique": "bounded model checking of the real entry points against spec-side linear algebra (cbmc, unwinding refinement)"},
-    "C03": {"level": "model_checking", "text": "_mzd_pluq_naive and _mzd_ple_naive on 3x5/4x3/2x66 fully symbolic matrices with junk P/Q on entry: rank, LAPACK ranges, P L U Q = A certificate, zero storage, column rank profile.",
-            "design_ref": "DESIGN.md 3/C03", "note": "the Russian and recursive routines are not decided (measured intractable); thorough tier attempts 2x3.", "technique": "bounded model checking of the real routines against a certificate (cbmc, unwinding refinement)"},
-    "C04": {"level": "model_checking", "text": "the four public TRSM routines on 4x4 and 5x5 triangles with symbolic junk in the opposite triangle and on the diagonal, right-hand sides of 3 and 66 columns, views: T*X == B resp. X*T == B, T unchanged.",
-            "design_ref": "DESIGN.md 3/C04", "note": "base cases only; Russian (n>64) and recursive regimes not reached in the quick tier.", "technique": "bounded model checking of the real routines against spec-side products"},
-    "C05": {"level": "model_checking", "text": "mzd_invert_naive, mzd_inv_m4ri on every invertible 3x3 matrix, mzd_trtri_upper on every unit upper triangular 4x4 matrix: A*B == B*A == I, A unchanged.",
-            "design_ref": "DESIGN.md 3/C05", "note": "n <= 4.", "technique": "bounded model checking of the real routines against spec-side products"},
-    "C06": {"level": "model_checking", "text": "mzd_solve_left with the inconsistency check on all systems of shapes 2x2, 2x3, 3x2, 1x2: verdict == rank test incl. padding rows, A*X == B when solvable.",
-            "design_ref": "DESIGN.md 3/C06", "note": "_mzd_pluq replaced by the library's own _mzd_pluq_naive when compiling solve.c (stated substitution).", "technique": "bounded model checking against spec-side rank/product"},
-    "C07": {"level": "model_checking", "text": "mzd_kernel_left_pluq on all matrices of shapes 2x3, 3x3, 3x2: NULL iff full column rank, A*K == 0, rank K == n-r.",
-            "design_ref": "DESIGN.md 3/C07", "note": "mzd_pluq replaced by _mzd_pluq_naive when compiling solve.c.", "technique": "bounded model checking against spec-side rank/product"},
+    "C02": {"level": "model_checking", "text": "Bounded: mzd_echelonize_naive on 3x5 / 4x3 fully symbolic matrices and views (returned rank, exact RREF with full reduction, otherwise a REF with the same row space, against a spec-side textbook elimination); the row-update stage of M4RI elimination (mzd_process_rows, mzd_process_rows2..6) under stage contracts; mzd_find_pivot under its observer contract. Unbounded (layer S): mzd_echelonize_pluq for all shapes and ranks -- windows, conforming triangular solves, index ranges, releases, every non-pivot column solved once (full reduction), row i has exactly its first i+1 cells cleared and the pivot cell inside the matrix (no full reduction).",
+            "design_ref": "DESIGN.md 8.4, 8.5", "note": "mzd_echelonize_m4ri / the hybrid route as a whole and the algebra of the PLUQ-based route are not decided (measured intractable at 3x5); thorough tier lists them as explorations.", "technique": "modular shape / window / index-range / header-balance contracts for the orchestration (goto-instrument --dfcc --enforce-contract --replace-call-with-contract --apply-loop-contracts, all dimensions symbolic) + bounded model checking of the real entry points against spec-side linear algebra (cbmc, unwinding refinement, one concrete small shape per instance, all operand bits symbolic)"},
+    "C03": {"level": "model_checking", "text": "Bounded: _mzd_pluq_naive and _mzd_ple_naive on 3x5 / 4x3 fully symbolic matrices with junk P/Q on entry (rank, LAPACK ranges, P L U Q = A certificate, zero storage); _mzd_compress_l (compression step of the block-recursive PLE) under its own stage contract incl. the whole-word regimes. Unbounded (layer S): _mzd_pluq on top of PLE and the checked wrappers mzd_pluq / mzd_ple for all shapes.",
+            "design_ref": "DESIGN.md 8.4, 8.5", "note": "_mzd_ple_russian and the recursion of _mzd_ple are not decided (measured intractable / permutation data loops); thorough tier lists 2x3 explorations.", "technique": "modular shape / window / index-range / header-balance contracts for the orchestration (goto-instrument --dfcc --enforce-contract --replace-call-with-contract --apply-loop-contracts, all dimensions symbolic) + bounded model checking of the real entry points against spec-side linear algebra (cbmc, unwinding refinement, one concrete small shape per instance, all operand bits symbolic)"},
+    "C04": {"level": "model_checking", "text": "Bounded: the four public TRSM routines on 4x4 / 3x3 triangles (views) with symbolic junk in the opposite triangle and on the diagonal, right-hand sides of 3-4 columns and, for the right-hand variants, 66 rows: T*X == B resp. X*T == B, T unchanged. Unbounded (layer S): the four block recursions, the inversion-based variant (triangularity ghost) and the checked wrappers for all orders, widths and cutoffs -- windows inside parents, conforming updates, base case / Russian routine only in their size regime, header balance.",
+            "design_ref": "DESIGN.md 8.4, 8.5", "note": "the Russian routines (64 < n <= 2048) and the algebra of the recursion are not decided; _mzd_addmul with cutoff < 64 is an assumed contract.", "technique": "modular shape / window / index-range / header-balance contracts for the orchestration (goto-instrument --dfcc --enforce-contract --replace-call-with-contract --apply-loop-contracts, all dimensions symbolic) + bounded model checking of the real entry points against spec-side linear algebra (cbmc, unwinding refinement, one concrete small shape per instance, all operand bits symbolic)"},
+    "C05": {"level": "model_checking", "text": "Bounded: mzd_invert_naive, mzd_inv_m4ri on every invertible 3x3 matrix, mzd_trtri_upper on every unit upper triangular 4x4 matrix (A*B == B*A == I, A unchanged). Unbounded (layer S): the recursive triangular inversion and the Four-Russians inversion front end for all orders (placement of [A | I], admissible table parameter handed to the elimination for every caller k, copy sizes, header balance).",
+            "design_ref": "DESIGN.md 8.4, 8.5", "note": "functional clause n <= 4 only.", "technique": "modular shape / window / index-range / header-balance contracts for the orchestration (goto-instrument --dfcc --enforce-contract --replace-call-with-contract --apply-loop-contracts, all dimensions symbolic) + bounded model checking of the real entry points against spec-side linear algebra (cbmc, unwinding refinement, one concrete small shape per instance, all operand bits symbolic)"},
+    "C06": {"level": "model_checking", "text": "Bounded: _mzd_pluq_solve_left on harness-built factorisations of every concrete rank for shapes 1x2, 2x2, 2x3, 3x2 (verdict == rank test incl. padding rows, A*X == B when solvable) and the padding-row verdict of _mzd_solve_left. Unbounded (layer S): _mzd_pluq_solve_left, mzd_pluq_solve_left, _mzd_solve_left for all shapes, ranks and flags -- conforming solves incl. rank 0 and full rank, windows, index ranges of the bit accessors, every temporary released on every return path.",
+            "design_ref": "DESIGN.md 8.4, 8.5", "note": "the factorisation itself is property C03; inside the bounded instances it is constructed by the harness (stated substitution when compiling solve.c).", "technique": "modular shape / window / index-range / header-balance contracts for the orchestration (goto-instrument --dfcc --enforce-contract --replace-call-with-contract --apply-loop-contracts, all dimensions symbolic) + bounded model checking of the real entry points against spec-side linear algebra (cbmc, unwinding refinement, one concrete small shape per instance, all operand bits symbolic)"},
+    "C07": {"level": "model_checking", "text": "Bounded: mzd_kernel_left_pluq on factorisations of every concrete rank for shapes 2x3, 3x3, 3x2 (NULL iff full column rank, A*K == 0, rank K == n-r). Unbounded (layer S): for all shapes and ranks -- NULL exactly when the rank equals the column count, otherwise a fresh n x (n - r) header, every bit access in range, temporaries released; mzd_first_zero_row under its observer contract.",
+            "design_ref": "DESIGN.md 8.4, 8.5", "note": "the factorisation itself is property C03 (constructed by the harness in the bounded instances).", "technique": "modular shape / window / index-range / header-balance contracts for the orchestration (goto-instrument --dfcc --enforce-contract --replace-call-with-contract --apply-loop-contracts, all dimensions symbolic) + bounded model checking of the real entry points against spec-side linear algebra (cbmc, unwinding refinement, one concrete small shape per instance, all operand bits symbolic)"},
 }
 
 CLAIMED["C12"] = {
